@@ -80,6 +80,17 @@ Fixpoint walk (fs : path -> option node) (cur : path) (rest : path) : option nod
   end.
 Definition fs_get (fs : path -> option node) (p : path) : option node := walk fs [] p.
 
+(* a finite file system given by lists ([] is always a directory), on `..`-free paths *)
+Definition fs_of (files : list (path * N)) (dirs : list path) (p : path) : option node :=
+  match p with
+  | [] => Some Dir
+  | _ => if mem p dirs then Some Dir
+         else match find (fun e => path_eqb p (fst e)) files with
+              | Some e => Some (File (snd e))
+              | None => None
+              end
+  end.
+
 (* ------------------------------------------------------------------------------------------------ *)
 (* abstract crates *)
 
@@ -98,6 +109,12 @@ Inductive decl : Type :=
 
 Record facts : Type := mkFacts { inner_skip : bool; generated : bool; ignored : bool }.
 Record config : Type := mkConfig { skip_children : bool; format_generated : bool; input_is_stdin : bool }.
+
+(* finite crates: association lists; an id without entry has no items / no marker *)
+Definition ast_of (l : list (N * option (list decl))) (id : N) : option (list decl) :=
+  match find (fun e => N.eqb id (fst e)) l with Some e => snd e | None => Some [] end.
+Definition facts_of (l : list (N * facts)) (id : N) : facts :=
+  match find (fun e => N.eqb id (fst e)) l with Some e => snd e | None => mkFacts false false false end.
 
 Inductive err : Type := NotFound | MultipleCandidates | ParseError | OutOfFuel.
 Inductive res (A : Type) : Type := Ok (a : A) | Err (e : err).
@@ -559,7 +576,7 @@ Record Tame (root : path) : Prop := mkTame {
   tame_coh_root : forall c ds n a k,
       Visit true true root c ds -> In (ModDecl n a) ds -> skip a = false ->
       In (root, k) (decl_targets true c n a) -> k = root_ctx root;
-  tame_syntax : forall id ds, ast id = Some ds -> forallb decl_ok ds = true;
+  tame_syntax : forall c ds, Visit true true root c ds -> forallb decl_ok ds = true;
   (* cfg_attr(.., path = ..) candidates that exist are parsable files without #![rustfmt::skip], and when one
      exists the default candidate has no #![rustfmt::skip] either (modules.rs:421, 544-561) *)
   tame_cfg_attr : forall c ds n a q,
@@ -631,5 +648,55 @@ Definition closed_nodes (fallback prune : bool) (root : path) (l : list lnode) :
   && forallb (fun x => forallb (fun y => lnode_mem y l) (succs fallback prune x)) l.
 Definition files_of_nodes (fallback prune : bool) (root : path) (l : list lnode) : list path :=
   root :: flat_map (fun x : lnode => flat_map (decl_files fallback prune (fst x)) (snd x)) l.
+
+
+(* decidable form of Tame, given the closed node list l of the pruned closure with fallback *)
+Definition own_is_unowned (o : own) : bool := match o with Unowned => true | _ => false end.
+Definition heur_ok (c : ctx) (d : decl) : bool :=
+  match d with
+  | ModInline n a b =>
+      if skip a then true
+      else match path_attr a, crel c with
+           | None, Some r =>
+               if exists_ (cdir c ++ [CDir r]) && negb (exists_ (cdir c ++ [CDir r; CDir n]))
+               then forallb no_mods b else true
+           | _, _ => true
+           end
+  | _ => true
+  end.
+Definition node_targets (x : lnode) : list (path * ctx) :=
+  flat_map (fun d => match d with
+                     | ModDecl n a => if skip a then [] else decl_targets true (fst x) n a
+                     | _ => []
+                     end) (snd x).
+Definition file_noskip (p : path) : bool :=
+  match lookup p with Some (File id) => negb (inner_skip (ffacts id)) | _ => true end.
+Definition cfg_attr_ok (c : ctx) (d : decl) : bool :=
+  match d with
+  | ModDecl n a =>
+      if skip a then true
+      else match path_attr a with
+           | Some _ => true
+           | None =>
+               forallb (fun q =>
+                 if exists_ (cdir c ++ q)
+                 then match lookup (cdir c ++ q) with
+                      | Some (File id) => match ast id with Some _ => negb (inner_skip (ffacts id)) | None => false end
+                      | _ => false
+                      end
+                      && match lang_default true c n with Ok (p, _) => file_noskip p | Err _ => true end
+                 else true) (cfg_attr_paths a)
+           end
+  | _ => true
+  end.
+Definition tame_check (root : path) (l : list lnode) : bool :=
+  let tg := flat_map node_targets l in
+  own_is_unowned (to_directory_ownership root)
+  && forallb (fun x : lnode => forallb (heur_ok (fst x)) (snd x)) l
+  && forallb (fun t1 : path * ctx =>
+       forallb (fun t2 : path * ctx => implb (path_eqb (fst t1) (fst t2)) (ctx_eqb (snd t1) (snd t2))) tg) tg
+  && forallb (fun t : path * ctx => implb (path_eqb (fst t) root) (ctx_eqb (snd t) (root_ctx root))) tg
+  && forallb (fun x : lnode => forallb decl_ok (snd x)) l
+  && forallb (fun x : lnode => forallb (cfg_attr_ok (fst x)) (snd x)) l.
 
 End Model.
